@@ -233,7 +233,12 @@ fn clear_cases(r: &mut Rng, n: usize, sink: &mut Sink) {
                 tags.push("result:ok".into());
                 // independent cut: everything that starts before the new first link point goes, nothing else
                 let first = p.link_points().first().map(|l| l.offset.value).unwrap_or(f64::NAN);
-                let keep_cats: Vec<(f64, f64, f64)> = p0.cat_power_limits().iter().filter(|c| c.offset_start.value >= first).map(|c| (c.offset_start.value, c.offset_end.value, c.power_limit.value)).collect();
+                // catenary sections by OWNERSHIP (the sections the dropped links contributed go, in order), not by offset: a
+                // zero-length section at the very end of a dropped link starts exactly at the new first offset and still belongs
+                // to the dropped link (an earlier cut by offset raised a false alarm on such a section: seed 19, case clear/15)
+                let n_links_before = p0.link_points().iter().take_while(|l| l.offset.value < first).count();
+                let n_drop_cats: usize = p0.link_points().iter().take(n_links_before).map(|l| rt.net.get(l.link_idx.idx()).map(|k| k.cat_power_limits.len()).unwrap_or(0)).sum();
+                let keep_cats: Vec<(f64, f64, f64)> = p0.cat_power_limits().iter().skip(n_drop_cats).map(|c| (c.offset_start.value, c.offset_end.value, c.power_limit.value)).collect();
                 let got_cats: Vec<(f64, f64, f64)> = p.cat_power_limits().iter().map(|c| (c.offset_start.value, c.offset_end.value, c.power_limit.value)).collect();
                 if keep_cats != got_cats { fails.push(format!("after clear({}) the catenary sections are not those of the remaining links: {} kept, {} expected (first remaining link starts at {})", x, got_cats.len(), keep_cats.len(), first)); }
                 let keep_gr: Vec<f64> = p0.grades().iter().map(|g| g.offset.value).filter(|o| *o >= first).collect();
